@@ -40,6 +40,8 @@ def to_py(v, pems):
         return v['v']
     if k == 'null':
         return None
+    if k == 'float':
+        return float(v['v'])
     if k == 'list':
         return [to_py(x, pems) for x in v['v']]
     if k == 'map':
